@@ -116,6 +116,13 @@ fn follow_ok(f: &[u8]) -> bool {
 }
 
 fn run_socket(chunks: &[&[u8]]) -> Result<SockOutcome, String> {
+    run_socket_mode(chunks, false)
+}
+
+/// `fin_at_once`: every chunk is written and the client's FIN follows before the server has run at
+/// all (a client that sends its whole stream and half-closes): one more way for the same bytes to
+/// reach the server's reads.
+fn run_socket_mode(chunks: &[&[u8]], fin_at_once: bool) -> Result<SockOutcome, String> {
     let cfg = NetCfg { item_limit: LIMIT, ..Default::default() };
     let w = net::NetWorld::new(cfg)?;
     {
@@ -140,7 +147,8 @@ fn run_socket(chunks: &[&[u8]]) -> Result<SockOutcome, String> {
         if ch.is_empty() {
             continue;
         }
-        if c.step(&w, ch).is_err() {
+        let io = if fin_at_once { c.send(&w, ch) } else { c.step(&w, ch) };
+        if io.is_err() {
             break;
         }
     }
@@ -460,7 +468,7 @@ pub fn check(tier: Tier, threads: usize) -> CheckOutcome {
         }
     }
     // ---- C: long pipelines - tens of requests in one segment (more than any per-read budget) ----
-    for n in [24usize, 64, 200] {
+    for n in [24usize, 64, 200, 700] {
         crate::watchdog::working_on(format!("C09 pipeline of {} requests", n));
         let mut bytes = vec![];
         let mut loud = 0usize;
@@ -492,6 +500,24 @@ pub fn check(tier: Tier, threads: usize) -> CheckOutcome {
             );
             continue;
         }
+        // the whole burst and the FIN are there before the server's first read
+        match run_socket_mode(&[&bytes], true) {
+            Ok(o) if o != whole => {
+                add(
+                    format!("socket-segmentation|pipeline-{}+fin", n),
+                    format!(
+                        "{} pipelined requests answered differently when the client's FIN is queued right behind them: {} responses instead of {}",
+                        n,
+                        wire::split_responses(&o.received).0.len(),
+                        answered
+                    ),
+                    json!({"engine": "c09", "part": "socket-segmentation", "stream": format!("pipeline-{}", n), "bytes": wire::hex_full(&bytes), "cuts": [], "fin_at_once": true}),
+                );
+            }
+            Ok(_) => {}
+            Err(e) => mach = Some(e),
+        }
+        evals.fetch_add(1, Ordering::Relaxed);
         let mut cut_sets: Vec<Vec<usize>> = vec![(1..bytes.len()).step_by(97).collect(), (1..bytes.len()).step_by(24).collect()];
         if bytes.len() < 3000 {
             cut_sets.push(corpus::bytewise(bytes.len()));
